@@ -51,6 +51,7 @@ def cases(rng, tier):
     fams = [("layout", G.gen_layout), ("exprs", G.gen_exprs), ("range", G.gen_range), ("provisional", G.gen_provisional), ("macros", G.gen_macros), ("emacros", G.gen_emacros), ("forwarding", G.gen_forwarding),
             ("shrink", G.gen_shrink)]
     valid = family_cases(rng, fams, n // 4, faults=0.6)
+    valid += family_cases(rng, [("nested-frames", G.gen_nested_frames), ("selfshift", G.gen_selfshift), ("cascade", G.gen_cascade)], n // 8, faults=0.3)
     for c in valid:
         c.pop("want_ok", None); c.pop("want_err", None)
     cs += valid
